@@ -22,6 +22,15 @@ Proof. intros Hn Hd. apply ev_unm_of_norm. rewrite <- Hn. apply unm_to_norm. exa
 Theorem root_transparent_mar t t' n x :
   norm t = norm t' -> done (mar rt E n t x) = true -> ev (fun m => mar rt E m t' x) (mar rt E n t x).
 Proof. intros Hn Hd. apply ev_mar_of_norm. rewrite <- Hn. apply mar_to_norm. exact Hd. Qed.
+
+(* alias objects of the environment (E n = NType v) are transparent as well: annotations whose normal forms are
+   equivalent up to "the name of an alias object stands for its value" (BuildLemmas.aeq) are indistinguishable *)
+Theorem root_transparent_aeq_unm t t' n x :
+  aeq E (norm t) (norm t') -> done (unm rt E n t x) = true -> ev (fun m => unm rt E m t' x) (unm rt E n t x).
+Proof. intros Hn Hd. apply ev_unm_of_norm. apply (proj1 (ev_unm_aeq rt E _ _ Hn x _)). apply unm_to_norm. exact Hd. Qed.
+Theorem root_transparent_aeq_mar t t' n x :
+  aeq E (norm t) (norm t') -> done (mar rt E n t x) = true -> ev (fun m => mar rt E m t' x) (mar rt E n t x).
+Proof. intros Hn Hd. apply ev_mar_of_norm. apply (proj1 (ev_mar_aeq rt E _ _ Hn x _)). apply mar_to_norm. exact Hd. Qed.
 End Root.
 
 (* ------------------------------------------------------------ deep normal form *)
